@@ -1,6 +1,7 @@
 """C19 — protocol messages mean the same to both ends and framing always terminates."""
 import common
 from common import Case
+import session  # noqa: F401 — installs the deterministic scheduler BEFORE bridge_env.network_bridge is imported (session oracle)
 
 TITLE = 'Protocol messages mean the same to both ends and framing always terminates'
 LEAN_TARGETS = ['BridgeVerif.Props.C19', 'BridgeVerif.Translated.NetHelpers', 'BridgeVerif.Translated.Messages', 'BridgeVerif.Translated.ThreadsFraming']
@@ -494,6 +495,13 @@ def extra_checks(ctx):
     for d in TC.check_framing(common.REPO, driver, fcases):
         if len(fails) < 6:
             fails.append({'key': 'translated-framing', 'kind': 'broken-correspondence', 'diff': d})
+    # both ENDS in one session: scripted seats alert their calls (also passes, doubles, redoubles) and use either card notation
+    # and any letter case; the real bundled Client at the other seats must understand what the table manager relays to it
+    import pC11
+    for i in range(2 if ctx.quick else 10):
+        for f in pC11.bundled_session(ctx, rng, kind='mixed'):
+            if len(fails) < 6:
+                fails.append(dict(f, key='session:' + str(f.get('key')), replay_with='./check C11 --replay'))
     ctx.count('translated_framing_streams', len(fcases))
     ctx.count('_evals', len(fcases))
     return fails
